@@ -826,3 +826,40 @@ MUTANTS["C05"] += [
 MUTANTS["C16"] += [
     M("unconfined_search_is_fine", KDG, _ONPATH_OLD, _ONPATH_REVERT, "SILENT", "the set of paths is the same with and without the restriction"),
 ]
+
+MUTANTS["C01"] += [
+    M("port_string_that_is_a_port_name", HW, "        for cycles, ports in used_pp:\n            for p in ports:", "        for cycles, ports in used_pp:\n            if ports in port_list:\n                ports = [ports]\n            for p in ports:", "R1",
+      "seeded change (round 4): zen3's set string '12' is also the name of port 12"),
+    M("port_set_copied_is_fine", HW, "        for cycles, ports in used_pp:\n            for p in ports:", "        for cycles, ports in used_pp:\n            ports = list(ports)\n            for p in ports:", "SILENT", "a copy of the same set"),
+]
+
+MUTANTS["C03"] += [
+    M("written_operands_deduplicated_by_name", KDG,
+      "            # TODO instructions before must be considered as well, if they update registers\n",
+      "            if isinstance(dst, RegisterOperand):\n                if dst.name in scanned_regs:\n                    continue\n                scanned_regs.add(dst.name)\n            # TODO instructions before must be considered as well, if they update registers\n",
+      "R2", "seeded change (round 4): AArch64 q0 and x0 share the name '0'"),
+]
+
+for _p, _r in (("C04", "R6"), ("C03", "R7")):
+    MUTANTS[_p] += [
+        M("edge_weight_or_fallback", KDG, '                edge_weight = (\n                    instruction_form.latency\n                    if "mem_dep" in dep_flags or instruction_form.latency_wo_load is None\n                    else instruction_form.latency_wo_load\n                )',
+          '                edge_weight = instruction_form.latency_wo_load or instruction_form.latency', _r,
+          "seeded change (round 4): 0.0 is falsy, the load stage is counted twice"),
+    ]
+
+for _p, _r in (("C16", "R1"), ("C05", "R3"), ("C11", "R7"), ("C19", "R7")):
+    MUTANTS[_p] += [
+        M("partition_bound_counts_instructions_only", KDG, "        klen = len(kernel)\n", "        klen = len([i for i in kernel if i.mnemonic is not None])\n", _r,
+          "seeded change (round 4, given for C11 and for C19): the tail of the kernel is given to no worker"),
+    ]
+
+_NUMREG_OLD = ('        ma = re.match(r"R([0-9]+)[DWB]?", reg_a_name)\n        mb = re.match(r"R([0-9]+)[DWB]?", reg_b_name)\n        if ma and mb and ma.group(1) == mb.group(1):\n            return True\n')
+_NUMREG_HELPER = ('\n    def _numbered_gpr_index(self, reg_name):\n        match = re.match(r"R([0-9]+)[DWB]?", reg_name, re.IGNORECASE)\n        return match.group(1) if match else None\n\n    def is_basic_gpr(self, register):')
+MUTANTS["C12"] += [
+    M("numbered_index_none_equals_none", PX, [_NUMREG_OLD, "\n    def is_basic_gpr(self, register):"],
+      ['        if self._numbered_gpr_index(reg_a_name) == self._numbered_gpr_index(reg_b_name):\n            return True\n', _NUMREG_HELPER], "R4",
+      "seeded change (round 4): None == None makes k1 dependent on rax"),
+    M("numbered_index_helper_correct_is_fine", PX, [_NUMREG_OLD, "\n    def is_basic_gpr(self, register):"],
+      ['        idx_a = self._numbered_gpr_index(reg_a_name)\n        if idx_a is not None and idx_a == self._numbered_gpr_index(reg_b_name):\n            return True\n', _NUMREG_HELPER], "SILENT",
+      "the same test through a helper"),
+]
